@@ -96,7 +96,9 @@ class EllipticalArc(NamedTuple):
 
         point1 = point_transform.map_point(self.start_point)
         point2 = point_transform.map_point(self.end_point)
-        delta = point2 - point1
+        # map the chord itself: the difference of the mapped points cancels to zero
+        # for end points a few ulps apart (ZeroDivisionError below)
+        delta = point_transform.map_vector(self.end_point - self.start_point)
 
         d = delta.x * delta.x + delta.y * delta.y
         scale_factor_squared = max(1 / d - 0.25, 0.0)
